@@ -673,11 +673,11 @@ fn vp_native_stalled_body_is_an_error() {
                         }
                     }
                     s.write_all(&w).ok(); s.flush().ok();
-                    std::thread::sleep(std::time::Duration::from_millis(2500));   // nothing more comes within the client's read timeout
+                    std::thread::sleep(std::time::Duration::from_millis(7000));   // nothing more comes within the client's read timeout
                 }
             });
             let ctx = format!("{} body, the server falls silent, read through {}", shape, helper);
-            let resp = crate::get(format!("http://127.0.0.1:{}/", port)).read_timeout(std::time::Duration::from_millis(400)).send().unwrap_or_else(|e| panic!("the head arrived completely ({}): {}", ctx, e));
+            let resp = crate::get(format!("http://127.0.0.1:{}/", port)).read_timeout(std::time::Duration::from_millis(1500)).send().unwrap_or_else(|e| panic!("the head arrived completely ({}): {}", ctx, e));
             match helper {
                 "bytes" => { let r = resp.bytes(); assert!(r.is_err(), "bytes() reported a complete body of {} bytes ({})", r.map(|b| b.len()).unwrap_or(0), ctx); }
                 "split-bytes" => { let r = resp.split().2.bytes(); assert!(r.is_err(), "ResponseReader::bytes() reported a complete body of {} bytes ({})", r.map(|b| b.len()).unwrap_or(0), ctx); }
